@@ -19,7 +19,7 @@ def main():
     prop = sys.argv[1]
     name = sys.argv[sys.argv.index('--name') + 1] if '--name' in sys.argv else prop
     checks = sys.argv[sys.argv.index('--checks') + 1].split(',') if '--checks' in sys.argv else [prop]
-    wt = f'/tmp/wt-{name}'
+    wt = sys.argv[sys.argv.index('--wt') + 1] if '--wt' in sys.argv else f'/tmp/wt-{name}'
     dest = f'/verif/seeded/{name}'
     os.makedirs(dest, exist_ok=True)
     meta = {'property': prop, 'worktree': wt}
